@@ -45,6 +45,15 @@ Definition handshake_ok (t : tlsconf) (c : cert) : bool :=
 Definition start_tls (t : tlsconf) (c : cert) : bool :=
   handshake_ok t c && (t_skip t || valid_for c (t_domain t)).
 
+(* With a ClientSessionCache in the TLS configuration crypto/tls may RESUME a session of an earlier
+   connection of the client ([resumed]; the session is cached at handshake time, i.e. also when the
+   domain check then refused the certificate).  On resumption crypto/tls checks the cached chain
+   against ServerName again; StartTLS runs VerifyHostname(Domain) whether or not the session was
+   resumed.  [skip_on_resume] = true is the variant that trusts a resumed session (not the code). *)
+Definition start_tls_on (skip_on_resume : bool) (t : tlsconf) (c : cert) (resumed : bool) : bool :=
+  handshake_ok t c && (t_skip t || (skip_on_resume && resumed) || valid_for c (t_domain t)).
+Definition start_tls_r (t : tlsconf) (c : cert) (resumed : bool) : bool := start_tls_on false t c resumed.
+
 (* ------------------------------------------------------------------ the gate, by the flags *)
 (* s.startTlsIfSupported.  Result: what was written, the real channel afterwards, the flags, s.err
    (Some cut: set; cut = the connection was lost), the rest of the script, and what the client has
